@@ -121,6 +121,7 @@ class DeclarativeCircuit(IDeclarativeCircuit):
             nr_qubits=self.nr_qubits,
         )
         result._structure = self._structure.apply_modifiers_to_self()
+        result._acquisition_registry = AcquisitionRegistry(circuit=result._structure)
         result._added_operations = self._added_operations
         return result
 
@@ -135,6 +136,7 @@ class DeclarativeCircuit(IDeclarativeCircuit):
             nr_qubits=self.nr_qubits,
         )
         result._structure = self._structure.apply_flatten_to_self()
+        result._acquisition_registry = AcquisitionRegistry(circuit=result._structure)
         result._added_operations = self._added_operations
         return result
 
